@@ -45,7 +45,7 @@ pub trait Qx: Sized + Send + Sync + 'static {
 }
 
 /// sign-extend a `w`-bit two's-complement value held in the low limbs
-fn sext(mut limbs: [u64; 8], w: u32) -> W512 {
+pub fn sext(mut limbs: [u64; 8], w: u32) -> W512 {
     if w < 512 {
         let top = (w - 1) as usize;
         let neg = (limbs[top / 64] >> (top % 64)) & 1 != 0;
